@@ -183,7 +183,9 @@ impl<Wr: Write> Serializer for XmlSerializer<Wr> {
     fn end_elem(&mut self, name: QualName) -> io::Result<()> {
         self.namespace_stack.pop();
         self.writer.write_all(b"</")?;
-        self.qual_name(&name)?;
+        // The binding was declared on the start tag; an end tag must not register
+        // anything in the scope of the parent.
+        write_qual_name(&mut self.writer, &name)?;
         self.writer.write_all(b">")
     }
 
